@@ -246,7 +246,9 @@ impl RtWorld {
             // frames, among them the type-5 VCP frame the poller decodes
             let days = (gen.start_stamp_ms / 86_400_000) as u32 + 1;
             let ms = (gen.start_stamp_ms % 86_400_000) as u32;
-            let mut v = icd::volume_header("6", gen.dir as u16, days, ms, &self.site);
+            // every documented Archive II version (02..07)
+            let version = ["2", "3", "4", "5", "6", "7"][r.below(6) as usize];
+            let mut v = icd::volume_header(version, gen.dir as u16, days, ms, &self.site);
             let mut stream = Vec::new();
             let before = r.below(3);
             for k in 0..before {
